@@ -335,9 +335,13 @@ impl IoLoop {
             Err(err) => {
                 // If our credentials are bad, the socket is dropped without a message,
                 // but we can detect that if we had gotten up to the Secure state before
-                // failing.
-                return match state {
-                    HandshakeState::Secure(_, _) => InvalidCredentialsSnafu.fail(),
+                // the connection went away. Other failures in that state (a timeout, a
+                // Secure challenge we do not support, ...) keep their own error.
+                return match (state, &err) {
+                    (HandshakeState::Secure(_, _), Error::UnexpectedSocketClose)
+                    | (HandshakeState::Secure(_, _), Error::IoErrorReadingSocket { .. }) => {
+                        InvalidCredentialsSnafu.fail()
+                    }
                     _ => Err(err),
                 };
             }
